@@ -31,6 +31,7 @@ Proof.
             destruct (sel i cx =? n); [specialize (IHf1 cx _ W)|specialize (IHf2 cx _ W)]; lia).
   all: try (pose proof (N.le_min_l (minsz f1) (minsz f2)); pose proof (N.le_min_r (minsz f1) (minsz f2));
             destruct (n <=? sel i cx); [specialize (IHf1 cx _ W)|specialize (IHf2 cx _ W)]; lia).
+  all: try apply N.le_0_l.
   - (* FU *) rewrite le_enc_length. lia.
   - (* FFix *) apply Nat.eqb_eq in W. lia.
   - (* FVarUint *) pose proof (varint_enc_length n). lia.
@@ -83,6 +84,54 @@ Proof.
   pose proof (H a (or_introl eq_refl)). specialize (IHvs (fun v I => H v (or_intror I))). lia.
 Qed.
 
+Lemma varint_enc_cons : forall n, exists b tl, varint_enc n = b :: tl.
+Proof.
+  intros. unfold varint_enc. destruct (n <? 253); [eauto|]. destruct (n <=? 65535); [eauto|].
+  destruct (n <=? 4294967295); eauto.
+Qed.
+
+Lemma unvn_map : forall vs,
+  forallb (fun v => match v with VN n => n <? 256 | _ => false end) vs = true ->
+  map VN (map (fun v => match v with VN n => n | _ => 0 end) vs) = vs.
+Proof.
+  induction vs; intros H; simpl; auto. simpl in H. apply andb_true_iff in H. destruct H as [H1 H2].
+  destruct a; try discriminate. rewrite IHvs by auto. reflexivity.
+Qed.
+
+Lemma starts_varint_enc : forall f c v rest, starts_varint f = true -> wt f c v = true ->
+  exists n t, varint_dec (encode f c v ++ rest) = Some (n, t).
+Proof.
+  induction f; intros cx v rest S W; cbn [starts_varint] in S; try discriminate.
+  - destruct v; cbn [wt] in W; try discriminate. apply andb_true_iff in W. destruct W as [W1 _].
+    cbn [encode]. rewrite <- app_assoc. eapply IHf1; eauto.
+  - destruct c; try discriminate. destruct v; cbn [wt] in W; try discriminate.
+    repeat (apply andb_true_iff in W; destruct W as [W ?]). apply N.ltb_lt in W.
+    cbn [encode write_cnt]. rewrite <- app_assoc. eexists. eexists. apply varint_dec_enc. exact W.
+Qed.
+
+Lemma ms_norm_idem : forall x v, x < 18446744073709551616 -> ms_norm x = Some v ->
+  v < 18446744073709551616 /\ ms_norm v = Some v.
+Proof.
+  unfold ms_norm. intros x v X H.
+  destruct (x <? 9223372036854775808) eqn:C.
+  - destruct (0 <? x mod 1000000) eqn:M; [discriminate|]. inversion H; subst. rewrite C, M. auto.
+  - apply N.ltb_ge in C.
+    assert (Hv := f_equal (fun o => match o with Some a => a | None => 0 end) H). cbv beta iota in Hv.
+    rewrite <- Hv. clear Hv H v.
+    set (D := 18446744073709551616 - x).
+    pose proof (N.div_mod D 1000000) as DM. pose proof (N.mod_lt D 1000000) as ML.
+    set (r := D mod 1000000) in *. set (q := D / 1000000) in *.
+    assert (XR : x + r <= 18446744073709551616) by (unfold D in *; lia).
+    destruct (N.eq_dec (x + r) 18446744073709551616) as [E|E].
+    + rewrite E. rewrite N.mod_same by lia. split; [lia|reflexivity].
+    + rewrite (N.mod_small (x + r)) by lia. split; [lia|].
+      replace (x + r <? 9223372036854775808) with false by (symmetry; apply N.ltb_ge; lia).
+      assert (Z : (18446744073709551616 - (x + r)) mod 1000000 = 0).
+      { replace (18446744073709551616 - (x + r)) with (q * 1000000) by (unfold D in *; lia).
+        apply N.mod_mul. lia. }
+      rewrite Z, N.add_0_r, N.mod_small by lia. reflexivity.
+Qed.
+
 Theorem roundtrip : forall f, wf_alloc f = true -> forall c v rest,
   wt f c v = true -> fst (decode f c (encode f c v ++ rest)) = Ok (v, rest).
 Proof.
@@ -103,6 +152,24 @@ Proof.
     rewrite <- app_assoc. rewrite varint_dec_enc by exact W2.
     replace (max <? N.of_nat (length b)) with false by (symmetry; apply N.ltb_ge; lia).
     rewrite take_N_app. reflexivity.
+  - (* FTimeMs *) apply andb_true_iff in W. destruct W as [W1 W2]. apply N.ltb_lt in W1.
+    rewrite take_app_len by apply le_enc_length. rewrite le_val_enc by exact W1.
+    destruct (ms_norm n) as [m|]; [|discriminate]. apply N.eqb_eq in W2. subst m. reflexivity.
+  - (* FTailU8List *) apply andb_true_iff in W. destruct W as [W1 W2]. apply N.ltb_lt in W1.
+    rewrite <- app_assoc.
+    destruct (varint_enc_cons (N.of_nat (length l))) as [b0 [tl E]].
+    pose proof (varint_dec_enc (N.of_nat (length l))
+                  (map (fun v => match v with VN n => n | _ => 0 end) l ++ rest) W1) as VD.
+    rewrite E in *. cbn [app]. cbn [app] in VD. rewrite VD.
+    pose proof (take_upto_app (map (fun v => match v with VN n => n | _ => 0 end) l) rest) as TU.
+    rewrite map_length in TU. rewrite TU. rewrite unvn_map by exact W2. reflexivity.
+  - (* FSwallowHead *)
+    cbn [wf_alloc] in WF. apply andb_true_iff in WF. destruct WF as [WF SV].
+    apply andb_true_iff in W. destruct W as [W1 W2]. apply N.eqb_eq in W1. subst t.
+    change (1 =? 0) with false. cbv iota.
+    destruct (starts_varint_enc f cx v rest SV W2) as [n0 [t0 VD]]. rewrite VD.
+    specialize (IHf WF cx v rest W2).
+    destruct (decode f cx (encode f cx v ++ rest)) as [r m]. simpl in IHf. subst r. reflexivity.
   - (* FSkipOpt *) reflexivity.
   - (* FSeq *) cbn [wf_alloc] in WF. apply andb_true_iff in WF. destruct WF as [WF1 WF2].
     apply andb_true_iff in W. destruct W as [W1 W2]. rewrite <- app_assoc.
@@ -228,6 +295,25 @@ Proof.
     split; [|eapply bytes_ok_take_N; eauto].
     apply take_N_length in T. destruct T as [_ L]. cbn [wt]. rewrite L.
     apply andb_true_iff. split; [apply N.leb_le; exact M|apply N.ltb_lt; exact Vn].
+  - (* FTimeMs *) destruct (take 8 bs) as [[h t]|] eqn:T; [|discriminate].
+    destruct (bytes_ok_take _ _ _ _ B T) as [Bh Bt].
+    destruct (ms_norm (le_val h)) as [v0|] eqn:MS; [|discriminate]. inversion D; subst.
+    split; [|exact Bt]. cbn [wt].
+    assert (LB : le_val h < 18446744073709551616).
+    { apply take_len in T. destruct T as [L _]. pose proof (le_val_bound h Bh) as LB. rewrite L in LB. exact LB. }
+    destruct (ms_norm_idem _ _ LB MS) as [V1 V2]. rewrite V2.
+    apply andb_true_iff. split; [apply N.ltb_lt; exact V1|apply N.eqb_refl].
+  - (* FTailU8List *) destruct bs as [|b0 bs0]; [inversion D; subst; auto|].
+    destruct (varint_dec (b0 :: bs0)) as [[n t]|] eqn:V;
+      [|destruct bs0; [destruct (253 <=? b0)|]; try discriminate; inversion D; subst; auto].
+    destruct (bytes_ok_varint _ _ _ B V) as [Vn Bt].
+    destruct (take_upto t n) as [h t'] eqn:T. inversion D; subst.
+    apply take_upto_spec in T. destruct T as [T1 T2]. subst t.
+    rewrite bytes_ok_app in Bt. apply andb_true_iff in Bt. destruct Bt as [Bh Bt'].
+    split; [|exact Bt']. cbn [wt]. rewrite map_length. apply andb_true_iff. split; [apply N.ltb_lt; lia|].
+    clear - Bh. induction h; simpl; auto. simpl in Bh. apply andb_true_iff in Bh. destruct Bh as [H1 H2].
+    rewrite H1. simpl. auto.
+  - (* FSwallowHead *) discriminate.
   - (* FSkipOpt *) destruct bs as [|b t]; inversion D; subst; [auto|].
     simpl in B. apply andb_true_iff in B. destruct B as [_ Bt]. auto.
   - (* FSeq *) apply andb_true_iff in ND. destruct ND as [N1 N2].
